@@ -343,7 +343,7 @@ class SimBackend(object):
         if kind == 'tl-incumbent':
             if tl is None:
                 raise HarnessError('tl fault without time limit')
-            self.clock.advance(max(d, float(tl) + 0.001))
+            self.clock.advance(max(d, float(tl) * 1.05 + 2.0))
             if not sols:
                 lp.assignVarsVals(dict((v.name, 0.0) for v in C.vs))
                 lp.assignStatus(pulp.LpStatusInfeasible,
@@ -367,7 +367,7 @@ class SimBackend(object):
         if kind == 'tl-no-incumbent':
             if tl is None:
                 raise HarnessError('tl fault without time limit')
-            self.clock.advance(max(d, float(tl) + 0.001))
+            self.clock.advance(max(d, float(tl) * 1.05 + 2.0))
             name = 'Not Solved'
         else:
             self.clock.advance(d)
